@@ -16,11 +16,13 @@ import (
 	"hash/fnv"
 	"math/rand"
 	"os"
+	"reflect"
 	"strconv"
 	"strings"
 	"sync/atomic"
 	"time"
 
+	"github.com/pingcap/kvproto/pkg/coprocessor"
 	"github.com/pingcap/kvproto/pkg/errorpb"
 	"github.com/pingcap/kvproto/pkg/kvrpcpb"
 	"github.com/pingcap/kvproto/pkg/metapb"
@@ -59,6 +61,8 @@ type vfCfg struct {
 	val        bool
 	learner    bool
 	fw         bool
+	cmd        int  // 0: CmdGet (read) / CmdPrewrite (write); else the tikvrpc.CmdType to send (read := isReadReq(cmd))
+	inv        bool // the cached region is invalidated between locate and send (oracles only)
 }
 
 func b01(b bool) string {
@@ -73,9 +77,9 @@ func (c vfCfg) String() string {
 	if c.label >= 0 {
 		lb = strconv.Itoa(c.label)
 	}
-	return fmt.Sprintf("rt=%c,st=%s,rd=%s,lb=%s,lo=%s,lv=%s,sl=%s%s%s,thr=%s,to=%s,ms=%d,val=%s,lr=%s,fw=%s",
+	return fmt.Sprintf("rt=%c,st=%s,rd=%s,lb=%s,lo=%s,lv=%s,sl=%s%s%s,thr=%s,to=%s,ms=%d,val=%s,lr=%s,fw=%s,cmd=%d,inv=%s",
 		c.rt, b01(c.stale), b01(c.read), lb, b01(c.leaderOnly), string(c.live[:]), b01(c.slow[0]), b01(c.slow[1]), b01(c.slow[2]),
-		b01(c.thr), b01(c.shortTO), c.ms, b01(c.val), b01(c.learner), b01(c.fw))
+		b01(c.thr), b01(c.shortTO), c.ms, b01(c.val), b01(c.learner), b01(c.fw), c.cmd, b01(c.inv))
 }
 
 func vfParseCfg(s string) vfCfg {
@@ -119,9 +123,99 @@ func vfParseCfg(s string) vfCfg {
 			c.learner = v == "1"
 		case "fw":
 			c.fw = v == "1"
+		case "cmd":
+			c.cmd, _ = strconv.Atoi(v)
+		case "inv":
+			c.inv = v == "1"
 		}
 	}
+	if c.cmd != 0 {
+		c.read = isReadReq(tikvrpc.CmdType(c.cmd))
+	}
 	return c
+}
+
+// request bodies / response prototypes of the command types the transactional and raw clients send through SendReq
+var vfCmdTable = map[tikvrpc.CmdType][2]interface{}{
+	tikvrpc.CmdGet:                       {&kvrpcpb.GetRequest{Key: []byte("key"), Version: 10}, &kvrpcpb.GetResponse{}},
+	tikvrpc.CmdScan:                      {&kvrpcpb.ScanRequest{StartKey: []byte("key"), Version: 10}, &kvrpcpb.ScanResponse{}},
+	tikvrpc.CmdPrewrite:                  {&kvrpcpb.PrewriteRequest{}, &kvrpcpb.PrewriteResponse{}},
+	tikvrpc.CmdCommit:                    {&kvrpcpb.CommitRequest{}, &kvrpcpb.CommitResponse{}},
+	tikvrpc.CmdCleanup:                   {&kvrpcpb.CleanupRequest{}, &kvrpcpb.CleanupResponse{}},
+	tikvrpc.CmdBatchGet:                  {&kvrpcpb.BatchGetRequest{Version: 10}, &kvrpcpb.BatchGetResponse{}},
+	tikvrpc.CmdBatchRollback:             {&kvrpcpb.BatchRollbackRequest{}, &kvrpcpb.BatchRollbackResponse{}},
+	tikvrpc.CmdScanLock:                  {&kvrpcpb.ScanLockRequest{MaxVersion: 10}, &kvrpcpb.ScanLockResponse{}},
+	tikvrpc.CmdResolveLock:               {&kvrpcpb.ResolveLockRequest{}, &kvrpcpb.ResolveLockResponse{}},
+	tikvrpc.CmdGC:                        {&kvrpcpb.GCRequest{}, &kvrpcpb.GCResponse{}},
+	tikvrpc.CmdDeleteRange:               {&kvrpcpb.DeleteRangeRequest{}, &kvrpcpb.DeleteRangeResponse{}},
+	tikvrpc.CmdPessimisticLock:           {&kvrpcpb.PessimisticLockRequest{}, &kvrpcpb.PessimisticLockResponse{}},
+	tikvrpc.CmdPessimisticRollback:       {&kvrpcpb.PessimisticRollbackRequest{}, &kvrpcpb.PessimisticRollbackResponse{}},
+	tikvrpc.CmdTxnHeartBeat:              {&kvrpcpb.TxnHeartBeatRequest{}, &kvrpcpb.TxnHeartBeatResponse{}},
+	tikvrpc.CmdCheckTxnStatus:            {&kvrpcpb.CheckTxnStatusRequest{}, &kvrpcpb.CheckTxnStatusResponse{}},
+	tikvrpc.CmdCheckSecondaryLocks:       {&kvrpcpb.CheckSecondaryLocksRequest{}, &kvrpcpb.CheckSecondaryLocksResponse{}},
+	tikvrpc.CmdFlashbackToVersion:        {&kvrpcpb.FlashbackToVersionRequest{}, &kvrpcpb.FlashbackToVersionResponse{}},
+	tikvrpc.CmdPrepareFlashbackToVersion: {&kvrpcpb.PrepareFlashbackToVersionRequest{}, &kvrpcpb.PrepareFlashbackToVersionResponse{}},
+	tikvrpc.CmdFlush:                     {&kvrpcpb.FlushRequest{}, &kvrpcpb.FlushResponse{}},
+	tikvrpc.CmdBufferBatchGet:            {&kvrpcpb.BufferBatchGetRequest{Version: 10}, &kvrpcpb.BufferBatchGetResponse{}},
+	tikvrpc.CmdRawGet:                    {&kvrpcpb.RawGetRequest{}, &kvrpcpb.RawGetResponse{}},
+	tikvrpc.CmdRawBatchGet:               {&kvrpcpb.RawBatchGetRequest{}, &kvrpcpb.RawBatchGetResponse{}},
+	tikvrpc.CmdRawPut:                    {&kvrpcpb.RawPutRequest{}, &kvrpcpb.RawPutResponse{}},
+	tikvrpc.CmdRawBatchPut:               {&kvrpcpb.RawBatchPutRequest{}, &kvrpcpb.RawBatchPutResponse{}},
+	tikvrpc.CmdRawDelete:                 {&kvrpcpb.RawDeleteRequest{}, &kvrpcpb.RawDeleteResponse{}},
+	tikvrpc.CmdRawBatchDelete:            {&kvrpcpb.RawBatchDeleteRequest{}, &kvrpcpb.RawBatchDeleteResponse{}},
+	tikvrpc.CmdRawDeleteRange:            {&kvrpcpb.RawDeleteRangeRequest{}, &kvrpcpb.RawDeleteRangeResponse{}},
+	tikvrpc.CmdRawScan:                   {&kvrpcpb.RawScanRequest{}, &kvrpcpb.RawScanResponse{}},
+	tikvrpc.CmdRawGetKeyTTL:              {&kvrpcpb.RawGetKeyTTLRequest{}, &kvrpcpb.RawGetKeyTTLResponse{}},
+	tikvrpc.CmdRawCompareAndSwap:         {&kvrpcpb.RawCASRequest{}, &kvrpcpb.RawCASResponse{}},
+	tikvrpc.CmdRawChecksum:               {&kvrpcpb.RawChecksumRequest{}, &kvrpcpb.RawChecksumResponse{}},
+	tikvrpc.CmdUnsafeDestroyRange:        {&kvrpcpb.UnsafeDestroyRangeRequest{}, &kvrpcpb.UnsafeDestroyRangeResponse{}},
+	tikvrpc.CmdCop:                       {&coprocessor.Request{StartTs: 10}, &coprocessor.Response{}},
+	tikvrpc.CmdMvccGetByKey:              {&kvrpcpb.MvccGetByKeyRequest{}, &kvrpcpb.MvccGetByKeyResponse{}},
+	tikvrpc.CmdMvccGetByStartTs:          {&kvrpcpb.MvccGetByStartTsRequest{}, &kvrpcpb.MvccGetByStartTsResponse{}},
+	tikvrpc.CmdSplitRegion:               {&kvrpcpb.SplitRegionRequest{}, &kvrpcpb.SplitRegionResponse{}},
+}
+
+// vfCmdTypes: the table above plus every other tikvrpc.CmdType value for which a region-error response with a
+// settable RegionError field exists (found generically; only the TYPE of that response is taken from the code).
+func vfCmdTypes() []tikvrpc.CmdType {
+	var out []tikvrpc.CmdType
+	for v := 1; v < 4096; v++ {
+		t := tikvrpc.CmdType(v)
+		if _, ok := vfCmdTable[t]; ok {
+			out = append(out, t)
+			continue
+		}
+		if strings.HasPrefix(t.String(), "Unknown") || t == tikvrpc.CmdCopStream || t == tikvrpc.CmdBatchCop || t == tikvrpc.CmdEmpty {
+			continue
+		}
+		resp, err := tikvrpc.GenRegionErrorResp(&tikvrpc.Request{Type: t}, &errorpb.Error{})
+		if err != nil || resp == nil || resp.Resp == nil {
+			continue
+		}
+		rv := reflect.ValueOf(resp.Resp)
+		if rv.Kind() != reflect.Ptr || rv.Elem().Kind() != reflect.Struct || !rv.Elem().FieldByName("RegionError").IsValid() {
+			continue
+		}
+		if tikvrpc.SetContextNoAttach(&tikvrpc.Request{Type: t}, nil, nil) != nil {
+			continue
+		}
+		vfCmdTable[t] = [2]interface{}{nil, reflect.New(rv.Elem().Type()).Interface()}
+		out = append(out, t)
+	}
+	return out
+}
+
+// vfMkResp builds the store's answer for the request's command type by reflection (independent of GenRegionErrorResp)
+func vfMkResp(req *tikvrpc.Request, re *errorpb.Error) *tikvrpc.Response {
+	ent, ok := vfCmdTable[req.Type]
+	if !ok {
+		panic("verif: no response prototype for " + req.Type.String())
+	}
+	v := reflect.New(reflect.TypeOf(ent[1]).Elem())
+	if re != nil {
+		v.Elem().FieldByName("RegionError").Set(reflect.ValueOf(re))
+	}
+	return &tikvrpc.Response{Resp: v.Interface()}
 }
 
 func vfDefaultCfg() vfCfg {
@@ -153,6 +247,7 @@ type vfRun struct {
 	peerIDs  []uint64
 	meta     *metapb.Region
 	lastAns  string
+	resps    []*tikvrpc.Response // what the scripted stores returned, per attempt (nil: RPC error)
 }
 
 type vfFix struct {
@@ -192,6 +287,12 @@ func vfLive(b byte) livenessState {
 }
 
 func (c *vfClient) SendRequest(ctx context.Context, addr string, req *tikvrpc.Request, timeout time.Duration) (*tikvrpc.Response, error) {
+	resp, err := c.answer(ctx, addr, req, timeout)
+	c.r.resps = append(c.r.resps, resp)
+	return resp, err
+}
+
+func (c *vfClient) answer(ctx context.Context, addr string, req *tikvrpc.Request, timeout time.Duration) (*tikvrpc.Response, error) {
 	r := c.r
 	i := r.attempts
 	r.attempts++
@@ -227,10 +328,7 @@ func (c *vfClient) SendRequest(ctx context.Context, addr string, req *tikvrpc.Re
 	var re *errorpb.Error
 	switch sym {
 	case "OK":
-		if req.Type == tikvrpc.CmdGet {
-			return &tikvrpc.Response{Resp: &kvrpcpb.GetResponse{Value: []byte("ok-" + tag)}}, nil
-		}
-		return &tikvrpc.Response{Resp: &kvrpcpb.PrewriteResponse{MinCommitTs: uint64(i + 1)}}, nil
+		return vfMkResp(req, nil), nil
 	case "Er", "Eu", "Ek":
 		r.f.liveAns[storeID] = vfLive(sym[1])
 		return nil, errors.New("verif: mock rpc error " + tag)
@@ -279,10 +377,7 @@ func (c *vfClient) SendRequest(ctx context.Context, addr string, req *tikvrpc.Re
 		panic("verif: unknown script symbol " + sym)
 	}
 	re.Message = "unknown-kind " + tag
-	if req.Type == tikvrpc.CmdGet {
-		return &tikvrpc.Response{Resp: &kvrpcpb.GetResponse{RegionError: re}}, nil
-	}
-	return &tikvrpc.Response{Resp: &kvrpcpb.PrewriteResponse{RegionError: re}}, nil
+	return vfMkResp(req, re), nil
 }
 
 func vfNewFix() *vfFix {
@@ -397,10 +492,18 @@ func (f *vfFix) run(c vfCfg, script []string) vfRes {
 
 	// ---- request
 	var req *tikvrpc.Request
+	cmdType := tikvrpc.CmdPrewrite
 	if c.read {
-		req = tikvrpc.NewRequest(tikvrpc.CmdGet, &kvrpcpb.GetRequest{Key: []byte("key"), Version: 10})
+		cmdType = tikvrpc.CmdGet
+	}
+	if c.cmd != 0 {
+		cmdType = tikvrpc.CmdType(c.cmd)
+	}
+	if ent, ok := vfCmdTable[cmdType]; ok && ent[0] != nil {
+		req = tikvrpc.NewRequest(cmdType, reflect.New(reflect.TypeOf(ent[0]).Elem()).Interface())
+		reflect.ValueOf(req.Req).Elem().Set(reflect.ValueOf(ent[0]).Elem())
 	} else {
-		req = tikvrpc.NewRequest(tikvrpc.CmdPrewrite, &kvrpcpb.PrewriteRequest{})
+		req = tikvrpc.NewRequest(cmdType, nil)
 	}
 	var rt kv.ReplicaReadType
 	switch c.rt {
@@ -452,6 +555,9 @@ func (f *vfFix) run(c vfCfg, script []string) vfRes {
 	}
 	bo := retry.NewBackoffer(context.Background(), c.ms)
 	sender := NewRegionRequestSender(f.cache, &vfClient{r: r}, validator)
+	if c.inv {
+		rc.invalidate(Other, true)
+	}
 	f.cur = r
 	resp, _, retryTimes, err := sender.SendReqCtx(bo, req, rc.VerID(), timeout, tikvrpc.TiKV, opts...)
 	f.cur = nil
@@ -467,23 +573,28 @@ func (f *vfFix) run(c vfCfg, script []string) vfRes {
 	case resp == nil:
 		result = "X"
 	default:
-		re, e2 := resp.GetRegionError()
-		if e2 != nil {
-			result = "X"
-		} else if re != nil {
-			if i := strings.Index(re.Message, " a"); i >= 0 {
-				result = "R" + re.Message[i+2:]
-			} else if re.GetEpochNotMatch() != nil && len(re.GetEpochNotMatch().CurrentRegions) == 0 {
-				result = "P"
-			} else {
-				result = "X"
+		// provenance by identity: which scripted store answer (if any) is this response object?
+		from := -1
+		for j, sr := range r.resps {
+			if sr != nil && (sr == resp || (sr.Resp != nil && sr.Resp == resp.Resp)) {
+				from = j
 			}
-		} else if g, ok := resp.Resp.(*kvrpcpb.GetResponse); ok && strings.HasPrefix(string(g.Value), "ok-a") {
-			result = "S" + string(g.Value)[4:]
-		} else if p, ok := resp.Resp.(*kvrpcpb.PrewriteResponse); ok && p.MinCommitTs > 0 {
-			result = "S" + strconv.Itoa(int(p.MinCommitTs-1))
-		} else {
+		}
+		re, e2 := resp.GetRegionError()
+		switch {
+		case e2 != nil:
 			result = "X"
+		case re != nil && from >= 0:
+			result = "R" + strconv.Itoa(from)
+		case re != nil && re.GetEpochNotMatch() != nil && len(re.GetEpochNotMatch().CurrentRegions) == 0 && re.Message == "":
+			result = "P"
+		case re != nil:
+			result = "X"
+		case from >= 0:
+			result = "S" + strconv.Itoa(from)
+		default:
+			// success-shaped (no error, no region error) but no store produced it
+			result = "F"
 		}
 	}
 	// fill the back-off kinds in
@@ -574,6 +685,8 @@ func (f *vfFix) run(c vfCfg, script []string) vfRes {
 		if !(c.read && !c.val) && !spent {
 			fails = append(fails, "error-before-budget-spent")
 		}
+	case 'F':
+		fails = append(fails, "fabricated-response:cmd="+cmdType.String())
 	default:
 		fails = append(fails, "result-shape")
 	}
@@ -847,6 +960,42 @@ func VerifSendReqMain(args []string) int {
 					g.emit(d, s)
 				}
 			}
+		}
+	}
+	// class E: every command type x short scripts: each single outcome, replica exhaustion (pseudo region error made by
+	// tikvrpc.GenRegionErrorResp), unreachable stores, spent budget, region invalidated between locate and send
+	rep := func(x string, n int) []string {
+		s := make([]string, n)
+		for i := range s {
+			s[i] = x
+		}
+		return s
+	}
+	for _, t := range vfCmdTypes() {
+		rts := "LF"
+		if isReadReq(t) {
+			rts = "LMF"
+		}
+		for _, rt := range []byte(rts) {
+			c := vfDefaultCfg()
+			c.rt = rt
+			c.cmd = int(t)
+			c.read = isReadReq(t)
+			g.enum(c, vfAlphaAll, nil, 1)
+			for _, sc := range [][]string{rep("SC", 40), rep("UK", 40), rep("DN", 40), {"Eu", "Eu", "Eu"}, {"RF", "RF"}, {"N3"}, {"B0", "B0", "B0", "B0"}, {"Dr", "EN"}, {"NL", "SM"}} {
+				g.emit(c, sc)
+			}
+			d := c
+			d.ms = 1
+			g.emit(d, rep("Er", 4))
+			g.emit(d, rep("MT", 4))
+			d = c
+			d.inv = true
+			g.emit(d, nil)
+			g.emit(d, []string{"Er"})
+			d = c
+			d.live = [3]byte{'U', 'U', 'U'}
+			g.emit(d, nil)
 		}
 	}
 	// class C: random configurations x random scripts (weighted towards retryable outcomes)
